@@ -277,6 +277,14 @@ fn wide_case(seed: u64, idx: u64) -> CaseOut {
     let cw = UnicodeWidthStr::width(chars[0].as_str());
     let w = rng.range(1, 300) as u16;
     let (pre, post) = (*rng.pick(&["", "ab ", "[", "xxxxxxxxxx "]), *rng.pick(&["", " {pos}/{len}", "]", " {msg}"]));
+    // a value with a newline next to the bar: the bar shares the terminal width with its own row only
+    let multiline = rng.chance(1, 4);
+    let msg_first = rng.chance(1, 2);
+    let (pre, post) = if multiline {
+        if msg_first { ("{msg} ", "") } else { ("", " {msg}") }
+    } else {
+        (pre, post)
+    };
     let spec = format!("{pre}{{wide_bar}}{post}");
     let len = rng.range(0, 2000);
     let pos = rng.range(0, 2100);
@@ -285,23 +293,32 @@ fn wide_case(seed: u64, idx: u64) -> CaseOut {
     let witness = J::obj().with("template", spec.clone()).with("terminal_width", w).with("progress_chars", CHARSETS[set]).with("len", len).with("pos", pos);
     let style = ProgressStyle::with_template(&spec).unwrap().progress_chars(CHARSETS[set]);
     let r = crate::rend::render_with(w, Some(len), style, move |pb| {
-        pb.set_message("mm");
+        pb.set_message(if multiline { "m1\nmm22" } else { "mm" });
         pb.set_position(pos);
     });
-    let feats = vec![format!("cell-width-{cw}"), "wide_bar".to_string()];
+    let mut feats = vec![format!("cell-width-{cw}"), "wide_bar".to_string()];
+    if multiline {
+        feats.push("newline-in-neighbour".into());
+    }
     match r {
         Err(p) => co.verdict = viol("panic", feats, format!("{spec} at width {w} panicked: {p}"), witness, replay),
         Ok(r) => {
-            let line = r.lines.first().cloned().unwrap_or_default();
+            // (with a two-line message in front of the bar, the bar sits on the second row)
+            let line = r.lines.get(if multiline && msg_first { 1 } else { 0 }).cloned().unwrap_or_default();
             let c = cols_of(&line);
             let rest = cols_of(&line.replace(|ch: char| chars.iter().any(|x| x.starts_with(ch)), ""));
             let w = w as usize;
             // the rest of the line without the bar (bar characters may also occur in the rest for
             // alphabetic sets: measure the rest from the template instead)
-            let rest_cols = pre.len() + match post {
-                " {pos}/{len}" => format!(" {pos}/{len}").len(),
-                " {msg}" => 3,
-                p => p.len(),
+            let rest_cols = if multiline {
+                if msg_first { 5 } else { 3 }
+            } else {
+                pre.len()
+                    + match post {
+                        " {pos}/{len}" => format!(" {pos}/{len}").len(),
+                        " {msg}" => 3,
+                        p => p.len(),
+                    }
             };
             let _ = rest;
             if rest_cols <= w {
